@@ -14,6 +14,7 @@ type SplitOpts struct {
 	MaxFiles   int  // >= 1
 	SplitTypes bool // fields of one tuple/table spread over two declarations of the type
 	SplitRest  bool // methods/sub-paths of one REST path spread over two declarations of the path
+	StubEps    bool // a simple endpoint with statements is declared once more as a one-line `Name: ...` stub
 }
 
 // SplitPlan partitions every application's members into 1..MaxBlocks blocks, assigns the
@@ -97,6 +98,10 @@ func SplitPlan(s *Spec, r *fw.Rand, o SplitOpts) *Plan {
 				continue
 			}
 			rest = append(rest, m)
+			if o.StubEps && m.Ep != nil && !m.Ep.Event && len(m.Ep.SubOf) == 0 && m.Ep.Method == "" && len(m.Ep.Stmts) > 0 && r.Chance(1, 4) {
+				stub := &Endpoint{ID: m.Ep.ID, Name: m.Ep.Name}
+				rest = append(rest, Member{Ep: stub})
+			}
 		}
 		k := r.Range(1, o.MaxBlocks)
 		if k > len(rest)+1 {
